@@ -231,7 +231,37 @@ def gen_cases(tier, seed):
     tls(bytes(32), 0, None, "-", "tls-zero-hash-bare", "h")
     tls(hashlib.sha256(b"Verif").digest(), 0, None, "-", "tls-related-password-bare", "h")
     tls(H[:31] + bytes([H[31] ^ 1]), 0, None, "1", "tls-last-bit")
+    # the configured password is hashed as it is: servers configured with passwords that carry surrounding or inner
+    # white space, control bytes, upper case or non-ASCII text; the preamble is the SHA-256 of exactly those bytes
+    # (session) or of a normalised relative (trimmed, lower-cased, NFC/NFD, without the newline: no session)
+    pws = ODD_PASSWORDS if not quick else ODD_PASSWORDS[:5]
+    for pw in ODD_PASSWORDS:
+        n += 1
+        cs.append(Case("hp%d" % n, "hashpw", [hx(pw)], "hash-of-configured-password", True, model=False))
+    for pw in pws:
+        n += 1
+        cs.append(Case("t%d" % n, "authtls", [hx(hashlib.sha256(pw).digest()), 0, "-", "-", "n", "pw=" + hx(pw)],
+                       "tls-odd-password-right", True, model=False))
+        for rel in relatives(pw)[:(2 if quick else 9)]:
+            n += 1
+            cs.append(Case("t%d" % n, "authtls", [hx(hashlib.sha256(rel).digest()), 0, "-", "-", r.choice(["n", "h"]), "pw=" + hx(pw)],
+                           "tls-odd-password-relative", True, model=False))
     return cs
+
+
+ODD_PASSWORDS = [b"verif ", b" verif", b"verif\n", b"\tverif\r\n", b"Verif-PW", b"ver if", b"verif\x00", "p\u00e4ss".encode(),
+                 "pa\u0308ss".encode(), b"  ", b"verif\x0b", b"\xc2\xa0verif\xc2\xa0", b"VERIF"]
+
+
+def relatives(pw):
+    out = []
+    t = pw.decode()
+    for v in (t.strip(), t.rstrip(), t.lstrip(), t.rstrip("\n"), t.lower(), t.upper(), t.replace(" ", ""), t.rstrip("\x00"),
+              __import__("unicodedata").normalize("NFC", t), __import__("unicodedata").normalize("NFD", t), t.strip() + " "):
+        b = v.encode()
+        if b != pw and b not in out:
+            out.append(b)
+    return out
 
 
 def oracle(c, ir):
@@ -240,6 +270,23 @@ def oracle(c, ir):
         data = b"".join(unhx(a) for a in c.args[2:])
         exp = ref_auth(h, data, eof)
         return None if ir == exp else "authenticate_client: expected %s got %s" % (short(exp), short(ir))
+    if c.drv == "hashpw":
+        exp = hashlib.sha256(unhx(c.args[0])).hexdigest()
+        return None if ir == exp else ("hash_password(%r) = %s, but the SHA-256 of the configured password is %s"
+                                       % (unhx(c.args[0]), ir, exp))
+    if c.drv == "authtls" and c.args[-1].startswith("pw="):
+        pw = unhx(c.args[-1][3:])
+        h = unhx(c.args[0])
+        f = dict(t.split("=") for t in ir.split() if "=" in t)
+        if "DIAL" not in f:
+            return "end-to-end driver failed: " + ir
+        if h == hashlib.sha256(pw).digest():
+            return None if f["DIAL"] == "1" else ("the server is configured with the password %r; a preamble that is the SHA-256 of "
+                                                  "exactly that password was not given a session: %s" % (pw, ir))
+        if f["DIAL"] != "0" or f["REPLY"] != "0":
+            return ("the server is configured with the password %r; a preamble that is NOT its SHA-256 (the hash of a related "
+                    "password) got a session: %s" % (pw, ir))
+        return None
     if c.drv == "authtls":
         h, pad, cut = unhx(c.args[0]), int(c.args[1]), c.args[2]
         f = dict(t.split("=") for t in ir.split() if "=" in t)
